@@ -171,6 +171,23 @@ class C13(GProp):
                     fails.append((None, '%s error %s: span %s has a non-canonical endpoint' % (how, txt[:80], m.group(0))))
                 if a[0] > b[0]:
                     fails.append((None, '%s error %s: span %s runs backwards' % (how, txt[:80], m.group(0))))
+            if e[0] == 'count':
+                # "count errors quote the actual ... counts": found / min / max of the one bounded list of the grammar
+                lists = []
+                def walk(x):
+                    if isinstance(x, list) and x:
+                        if x[0] in ('listb', 'listbdef'): lists.append(x)
+                        for y in x[1:]: walk(y)
+                walk(c['g'])
+                if len(lists) == 1 and len(e) >= 5:
+                    lo_, hi_ = lists[0][1], lists[0][2]
+                    if e[3] != lo_ or e[4] != hi_:
+                        fails.append((None, '%s count error %s: quotes bounds %s..%s, the list was built with %s..%s' % (how, txt[:80], e[3], e[4], lo_, hi_)))
+                    if int(e[2]) >= int(lo_):
+                        fails.append((None, '%s count error %s: quotes %s entries, which is not below the lower bound %s' % (how, txt[:80], e[2], lo_)))
+                    kind_, v_, _lx = run_result(it[1])
+                    if how != 'returned' and kind_ == 'ok' and c['g'] is lists[0] and isinstance(v_, list) and v_ and v_[0] == 'list' and int(e[2]) != len(v_) - 1:
+                        fails.append((None, '%s count error %s: quotes %s entries, the list returned %d' % (how, txt[:80], e[2], len(v_) - 1)))
             if e[0] == 'boundary':
                 d = {x[0]: x[1:] for x in e[1:]}
                 es, endp = parse_span(d['es'][0]), parse_pos(d['end'][0])
